@@ -3,6 +3,7 @@ package main
 import (
 	"fmt"
 	"go/types"
+	"strings"
 
 	"golang.org/x/tools/go/ssa"
 )
@@ -107,7 +108,7 @@ func (r *Run) spawn(fr *frame, fn Value, args []Value) {
 // passes the baton to the next runnable goroutine. With me == nil the caller is exiting.
 func (r *Run) schedule(me *gor) {
 	cs := r.conc()
-	cs.events++
+	r.event()
 	if len(cs.runq) == 0 {
 		// nobody can run
 		if me == cs.main {
@@ -125,8 +126,13 @@ func (r *Run) schedule(me *gor) {
 			cs.main.wake <- wakeMsg{}
 		}
 	} else {
-		next := cs.runq[0]
-		cs.runq = cs.runq[1:]
+		// scheduling policy: fifo (default) or lifo over the run queue; every choice is a legal Go schedule
+		idx := 0
+		if strings.HasPrefix(r.eng.sched, "lifo") {
+			idx = len(cs.runq) - 1
+		}
+		next := cs.runq[idx]
+		cs.runq = append(cs.runq[:idx:idx], cs.runq[idx+1:]...)
 		cs.cur = next
 		next.wake <- wakeMsg{}
 	}
@@ -140,6 +146,17 @@ func (r *Run) schedule(me *gor) {
 			r.gorPanic = nil
 			panic(p)
 		}
+	}
+}
+
+// event counts synchronisation events; the harness may ask for its context to be cancelled at event number k
+func (r *Run) event() {
+	cs := r.conc()
+	cs.events++
+	if r.cancelCtx != nil && cs.events == r.cancelAt {
+		c := r.cancelCtx
+		r.cancelCtx = nil
+		c.cancel(*r.global(r.eng.prog.ImportedPackage("context").Var("Canceled")))
 	}
 }
 
@@ -194,7 +211,7 @@ func (r *Run) chanSend(c *ChanV, v Value) {
 		r.block("send on nil chan")
 		panic(abortPath{"unreachable"})
 	}
-	r.conc().events++
+	r.event()
 	if c.closed {
 		panic(goPanic{strLit("send on closed channel")})
 	}
@@ -236,7 +253,7 @@ func (r *Run) chanRecv(c *ChanV, et types.Type) (Value, bool) {
 		r.block("recv on nil chan")
 		panic(abortPath{"unreachable"})
 	}
-	r.conc().events++
+	r.event()
 	if v, ok, done := r.tryRecv(c, et); done {
 		return v, ok
 	}
@@ -278,7 +295,7 @@ func (r *Run) chanClose(c *ChanV) {
 	if c.closed {
 		panic(goPanic{strLit("close of closed channel")})
 	}
-	r.conc().events++
+	r.event()
 	c.closed = true
 	for {
 		w := r.popWaiter(&c.recvq)
@@ -290,14 +307,18 @@ func (r *Run) chanClose(c *ChanV) {
 		}
 		r.ready(w.g)
 	}
-	if len(c.sendq) > 0 {
-		panic(goPanic{strLit("send on closed channel (blocked sender)")})
+	// stale select waiters (their select already fired on another case) are not blocked senders
+	for _, w := range c.sendq {
+		if w.sel == nil || !w.sel.fired {
+			panic(goPanic{strLit("send on closed channel (blocked sender)")})
+		}
 	}
+	c.sendq = nil
 }
 
 func (r *Run) selectStmt(fr *frame, instr *ssa.Select) Value {
 	cs := r.conc()
-	cs.events++
+	r.event()
 	n := len(instr.States)
 	res := make(Tuple, 2)
 	recvVals := map[int]Value{}
@@ -319,8 +340,16 @@ func (r *Run) selectStmt(fr *frame, instr *ssa.Select) Value {
 	for i, st := range instr.States {
 		chans[i], _ = fr.get(st.Chan).(*ChanV)
 	}
-	// ready cases, in source order (deterministic policy)
-	for i, st := range instr.States {
+	// ready cases: first ready case in source order, or in reverse source order under the "lastsel" policies
+	order := make([]int, n)
+	for i := range order {
+		order[i] = i
+		if strings.HasSuffix(r.eng.sched, "lastsel") {
+			order[i] = n - 1 - i
+		}
+	}
+	for _, i := range order {
+		st := instr.States[i]
 		c := chans[i]
 		if c == nil {
 			continue
@@ -385,6 +414,7 @@ func (r *Run) selectStmt(fr *frame, instr *ssa.Select) Value {
 // ---- context / errgroup / sync as engine-native objects ----
 
 type ctxObj struct {
+	tag      string
 	done     *ChanV // nil => never cancelled
 	err      Value
 	children []*ctxObj
@@ -566,9 +596,21 @@ func (e *Engine) registerConcIntrinsics() {
 	for _, n := range []string{"(*sync.RWMutex).Unlock", "(*sync.Mutex).Unlock", "(*sync.RWMutex).RUnlock"} {
 		in[n] = unlock
 	}
-	const G = "github.com/ddddddO/gtree."
-	in[G+"verifQuiesce"] = func(r *Run, fr *frame, a []Value) Value {
-		return IntV{C: uint64(r.quiesce())}
+	for _, G := range harnessPkgs {
+		in[G+"verifQuiesce"] = func(r *Run, fr *frame, a []Value) Value {
+			return IntV{C: uint64(r.quiesce())}
+		}
+		in[G+"verifCtx"] = func(r *Run, fr *frame, a []Value) Value {
+			k := r.concreteInt(a[0], "verifCtx event")
+			c := &ctxObj{r: r, done: &ChanV{}}
+			if k == 0 {
+				c.cancel(canceled(r))
+			} else if k < 100000 {
+				r.conc()
+				r.cancelCtx, r.cancelAt = c, r.conc().events+k
+			}
+			return Iface{T: ctxT(r), V: c}
+		}
 	}
 	_ = fmt.Sprint
 }
